@@ -74,3 +74,20 @@ def default_seq_num(version, major, minor, patch, tweak):
 
 def is_numeral(s):
     return s.isdecimal()
+
+
+# ---- C06 / C14: encryption artifacts --------------------------------------------------------------------
+def enc_structure():
+    """COSE Enc_structure ['Encrypt', protected, external_aad] for the published protected header {1: 3} (AES-GCM-256)."""
+    return ENC(["Encrypt", ENC({1: 3}), b""])
+
+
+def encryption_info(iv, kw_alg, key_id, encrypted_cek):
+    """bstr-wrapped COSE_Encrypt_Tagged: AES-GCM-256 in the protected header, IV unprotected, one recipient naming the key."""
+    return ENC(ENC(TAG(96, [ENC({1: 3}), {5: iv}, None, [[b"", {1: kw_alg, 4: ENC(key_id)}, encrypted_cek]]])))
+
+
+def digest_alg(name):
+    """(hashlib-style name, output size) of the five SUIT digest algorithm names used by the encrypt command."""
+    return (("sha256", 32) if name == "sha-256" else ("sha384", 48) if name == "sha-384" else ("sha512", 64) if name == "sha-512"
+            else ("shake128", 16) if name == "shake128" else ("shake256", 32))
